@@ -420,6 +420,13 @@ def run_world(case, sdk, checks):
                     w.flag(i, "batch-rule-not-detected", "a BatchWriteItem with %d requests / a malformed write request was accepted" % n_req)
             continue
         if name == "batchGet":
+            if k == "batchGet" and ("keys" in checks or "batch" in checks):
+                for tn, keys in op.get("greqs", []):
+                    tt = w.tables.get(tn)
+                    if tt is not None and any(keytuple(tt.schema, kk) is None for kk in keys):
+                        w.flag(i, "batchget-bad-key-unprocessed", "BatchGetItem with a key that lacks a key attribute or gives it another type succeeded "
+                               "(the key comes back among the unprocessed keys) instead of being rejected", impl=json.dumps(o)[:160])
+                        break
             if k == "batchGet" and ("batch" in checks or "roundtrip" in checks):
                 resp = dict((tn, its) for tn, its in o["batchGet"]["responses"])
                 unp = dict((tn, ks) for tn, ks in o["batchGet"]["unprocessed"])
